@@ -196,426 +196,135 @@ Qed.
 
 (* ---- the panic sites the theorems above talk about are the panic sites of the source ----
    The models' [Panic site] outcomes were enumerated by hand.  Gen/PanicSites.v is REGENERATED from
-   /repo/src on every run of the check (gen/gen_panics.py, token level): every panic!/unreachable!/todo!/
-   unimplemented!/assert*!/debug_assert*! invocation (KMacro), .unwrap() (KUnwrap), .expect(..) (KExpect),
-   index or slice expression (KIndex), std call that panics on a bad argument (KCall) and compound integer
-   update or subtraction (KArith) of the non-test code of src/lexer/*.rs, src/parser/*.rs,
-   src/analysis/*.rs, src/text.rs, src/span.rs, src/located.rs, src/error.rs and src/lib.rs, as
-   (file stem, enclosing fn, kind, normalised text), without line numbers.  The statement below pins that
-   list: a site that is added, removed or edited breaks this obligation (reported by the check with file,
-   fn and text); moving code, comments and message wording do not. *)
+   /repo/src on every run of the check (gen/gen_panics.py, token level) from the non-test code of
+   src/lexer/*.rs, src/parser/*.rs, src/analysis/*.rs, src/text.rs, src/span.rs, src/located.rs, src/error.rs
+   and src/lib.rs.  [panic_keys] is, for every (file stem, enclosing fn), the NUMBER of sites of every strong
+   kind: each panic!/unreachable!/todo!/unimplemented!/assert*!/debug_assert*! macro by name, .unwrap(),
+   .expect(..), and std calls that panic on a bad argument by callee (`call split_at`).  No expression text, no
+   line numbers: the statement below pins that list, so a new (or removed) unwrap / expect / assert / panic /
+   panicking call breaks this obligation (reported by the check with file, fn and the sites of the group),
+   while moving code, rewording messages and rewriting an expression do not.  Index expressions and integer
+   arithmetic are listed in [PanicSites.sites] as information only and are NOT pinned (a token-level list of
+   them changes with every harmless rewrite): their panics are the models' own index / overflow sites
+   ([PanicMap.unpinned_sites]) and the business of the catch_unwind monitor. *)
 Import PanicSites String.
 Local Open Scope string_scope.
-Theorem C03_panic_inventory : PanicSites.sites = [
-  ("lexer/cursor", "pos_within_token", KArith,
-   "self.len_remaining - self.chars.as_str().len()");
-  ("lexer/mod", "line_comment", KMacro,
-   "debug_assert!(self.prev()=='-'&&self.first()=='-')");
-  ("lexer/mod", "block_comment", KMacro,
-   "debug_assert!(self.prev()=='['&&self.first()=='-')");
-  ("lexer/mod", "word", KMacro,
-   "debug_assert!(self.pos_within_token()>0)");
-  ("lexer/mod", "whitespace", KMacro,
-   "debug_assert!(is_whitespace(self.prev()))");
-  ("lexer/mod", "number", KMacro,
-   "debug_assert!(self.prev().is_ascii_digit())");
-  ("parser/block_parser", "macro_rules!debug_assert_adjacent", KMacro,
-   "debug_assert!($s.windows(2).all(|w|w[0].span.end()==w[1].span.start()))");
-  ("parser/block_parser", "macro_rules!debug_assert_adjacent", KCall,
-   "s.windows(2)");
-  ("parser/block_parser", "macro_rules!debug_assert_adjacent", KIndex,
-   "w[0]");
-  ("parser/block_parser", "macro_rules!debug_assert_adjacent", KIndex,
-   "w[1]");
-  ("parser/block_parser", "new", KMacro,
-   "assert!(!tokens.is_empty())");
-  ("parser/block_parser", "new", KMacro,
-   "debug_assert!(tokens.first().unwrap().span.start()<input.len()&&tokens.last().unwrap().span.e...");
-  ("parser/block_parser", "new", KUnwrap,
-   "tokens.first().unwrap()");
-  ("parser/block_parser", "new", KUnwrap,
-   "tokens.last().unwrap()");
-  ("parser/block_parser", "new", KMacro,
-   "debug_assert_adjacent!(tokens)");
-  ("parser/block_parser", "base_offset", KUnwrap,
-   "self.tokens.first().unwrap()");
-  ("parser/block_parser", "finish", KMacro,
-   "assert_eq!(self.current, self.tokens.len())");
-  ("parser/block_parser", "capture_slice", KIndex,
-   "self.tokens[start..end]");
-  ("parser/block_parser", "token_str", KIndex,
-   "self.input[token.span.range()]");
-  ("parser/block_parser", "slice_str", KMacro,
-   "debug_assert_adjacent!(s)");
-  ("parser/block_parser", "slice_str", KUnwrap,
-   "s.first().unwrap()");
-  ("parser/block_parser", "slice_str", KUnwrap,
-   "s.last().unwrap()");
-  ("parser/block_parser", "slice_str", KIndex,
-   "self.input[start..end]");
-  ("parser/block_parser", "text", KMacro,
-   "debug_assert_adjacent!(tokens)");
-  ("parser/block_parser", "text", KIndex,
-   "tokens[0]");
-  ("parser/block_parser", "text", KMacro,
-   "assert_eq!(offset, start)");
-  ("parser/block_parser", "text", KIndex,
-   "tokens[0]");
-  ("parser/block_parser", "text", KIndex,
-   "self.input[start..end]");
-  ("parser/block_parser", "text", KIndex,
-   "self.input[token.span.range()]");
-  ("parser/block_parser", "text", KIndex,
-   "self.input[start..end]");
-  ("parser/block_parser", "text", KIndex,
-   "self.input[start..end]");
-  ("parser/block_parser", "text", KMacro,
-   "debug_assert!(self.input[token.span.range()].starts_with('\\'))");
-  ("parser/block_parser", "text", KIndex,
-   "self.input[token.span.range()]");
-  ("parser/block_parser", "text", KIndex,
-   "self.input[start..end]");
-  ("parser/block_parser", "parsed", KCall,
-   "self.tokens.split_at(self.current)");
-  ("parser/block_parser", "rest", KCall,
-   "self.tokens.split_at(self.current)");
-  ("parser/block_parser", "consume_rest", KArith,
-   "self.current += r.len()");
-  ("parser/block_parser", "next_token", KArith,
-   "self.current += 1");
-  ("parser/block_parser", "bump_any", KExpect,
-   "self.next_token().expect()");
-  ("parser/block_parser", "bump", KMacro,
-   "assert_eq!(token.kind, expected)");
-  ("parser/block_parser", "until", KIndex,
-   "rest[..pos]");
-  ("parser/block_parser", "until", KArith,
-   "self.current += pos");
-  ("parser/block_parser", "consume_while", KIndex,
-   "rest[..pos]");
-  ("parser/block_parser", "consume_while", KArith,
-   "self.current += pos");
-  ("parser/block_parser", "error", KMacro,
-   "debug_assert!(error.is_error())");
-  ("parser/block_parser", "warn", KMacro,
-   "debug_assert!(warn.is_warning())");
-  ("parser/frontmatter", "parse_frontmatter", KIndex,
-   "input[..fence_start]");
-  ("parser/frontmatter", "parse_frontmatter", KIndex,
-   "input[yaml_start..yaml_end]");
-  ("parser/frontmatter", "parse_frontmatter", KIndex,
-   "input[cooklang_start..]");
-  ("parser/frontmatter", "lines_with_offset", KArith,
-   "offset += l.len()");
-  ("parser/mod", "next_block", KIndex,
-   "self.block[end-1]");
-  ("parser/mod", "next_block", KArith,
-   "end - 1");
-  ("parser/mod", "next_block", KArith,
-   "end -= 1");
-  ("parser/mod", "next_block", KIndex,
-   "self.block[start..end]");
-  ("parser/mod", "parse_block", KMacro,
-   "unreachable!()");
-  ("parser/mod", "parse_multiline_block", KMacro,
-   "debug_assert!(bp.tokens().last().map(|t|t.kind!=T![newline]).unwrap_or(true))");
-  ("parser/mod", "tokens_span", KMacro,
-   "debug_assert!(!tokens.is_empty())");
-  ("parser/mod", "tokens_span", KUnwrap,
-   "tokens.first().unwrap()");
-  ("parser/mod", "tokens_span", KUnwrap,
-   "tokens.last().unwrap()");
-  ("parser/quantity", "parse_quantity", KMacro,
-   "assert!(!tokens.is_empty())");
-  ("parser/quantity", "parse_regular_quantity", KUnwrap,
-   "unit_separator.unwrap()");
-  ("parser/quantity", "parse_advanced_quantity", KUnwrap,
-   "value_tokens.last().unwrap()");
-  ("parser/quantity", "parse_advanced_quantity", KUnwrap,
-   "value_tokens.iter().rposition(|t|!matches!(t.kind, T![ws]|T![block comment])).unwrap()");
-  ("parser/quantity", "parse_advanced_quantity", KIndex,
-   "value_tokens[..=end_pos]");
-  ("parser/quantity", "parse_advanced_quantity", KUnwrap,
-   "value_tokens.first().unwrap()");
-  ("parser/quantity", "parse_advanced_quantity", KUnwrap,
-   "value_tokens.last().unwrap()");
-  ("parser/quantity", "parse_advanced_quantity", KUnwrap,
-   "unit_tokens.first().unwrap()");
-  ("parser/quantity", "range_value", KCall,
-   "tokens.split_at(mid)");
-  ("parser/quantity", "range_value", KUnwrap,
-   "end.split_first().unwrap()");
-  ("parser/quantity", "macro_rules!unwrap_numeric", KMacro,
-   "unreachable!(<str>)");
-  ("parser/quantity", "trim_tokens", KIndex,
-   "s[0..0]");
-  ("parser/quantity", "trim_tokens", KUnwrap,
-   "s.iter().rposition(not_ws_comment).unwrap()");
-  ("parser/quantity", "trim_tokens", KIndex,
-   "s[from..=to]");
-  ("parser/quantity", "mixed_num", KMacro,
-   "unreachable!()");
-  ("parser/quantity", "int", KMacro,
-   "assert_eq!(tok.kind, T![int])");
-  ("parser/step", "modifiers", KIndex,
-   "bp.tokens()[start..bp.current]");
-  ("parser/step", "parse_modifiers", KMacro,
-   "panic!(<str>)");
-  ("parser/step", "parse_intermediate_ref_data", KExpect,
-   "tokens.position(|t|t.kind==T![')']).expect()");
-  ("parser/step", "parse_intermediate_ref_data", KIndex,
-   "slice[..=end_pos]");
-  ("parser/step", "parse_intermediate_ref_data", KIndex,
-   "slice[1..slice.len()-1]");
-  ("parser/step", "parse_intermediate_ref_data", KArith,
-   "slice.len() - 1");
-  ("parser/step", "parse_alias", KCall,
-   "tokens.split_at(alias_sep)");
-  ("parser/step", "parse_alias", KUnwrap,
-   "alias_tokens.split_first().unwrap()");
-  ("parser/step", "cookware", KExpect,
-   "modifiers_tokens.iter().find(|t|t.kind==T![@]).map(|t|t.span).expect()");
-  ("parser/step", "check_modifiers", KMacro,
-   "assert_ne!(container, INGREDIENT)");
-  ("parser/step", "check_modifiers", KMacro,
-   "assert_ne!(container, COOKWARE)");
-  ("parser/step", "check_intermediate_data", KMacro,
-   "assert_ne!(container, INGREDIENT)");
-  ("parser/step", "check_alias", KMacro,
-   "assert_ne!(container, INGREDIENT)");
-  ("parser/step", "check_alias", KMacro,
-   "assert_ne!(container, COOKWARE)");
-  ("parser/step", "check_alias", KIndex,
-   "name_tokens[sep]");
-  ("parser/step", "check_alias", KUnwrap,
-   "name_tokens.last().unwrap()");
-  ("parser/step", "check_note", KMacro,
-   "assert_ne!(container, INGREDIENT)");
-  ("parser/step", "check_note", KMacro,
-   "assert_ne!(container, COOKWARE)");
-  ("parser/step", "check_note", KMacro,
-   "assert!(bp.with_recover(|bp|{let start=bp.consume(T!['('])?.span.start();let _=bp.until(|t|t=...");
-  ("parser/token_stream", "offset", KArith,
-   "self.consumed += offset");
-  ("parser/token_stream", "next", KArith,
-   "self.consumed += t.len as usize");
-  ("analysis/event_consumer", "parse_events", KMacro,
-   "assert_eq!(kind, BlockKind::Step)");
-  ("analysis/event_consumer", "parse_events", KMacro,
-   "assert!(kind==BlockKind::Text||self.define_mode==DefineMode::Text)");
-  ("analysis/event_consumer", "parse_events", KMacro,
-   "panic!(<str>)");
-  ("analysis/event_consumer", "parse_events", KArith,
-   "self.step_counter += 1");
-  ("analysis/event_consumer", "parse_events", KMacro,
-   "panic!(<str>)");
-  ("analysis/event_consumer", "process_frontmatter", KUnwrap,
-   "key.as_str().unwrap()");
-  ("analysis/event_consumer", "metadata", KIndex,
-   "key_t[1..key_t.len()-1]");
-  ("analysis/event_consumer", "metadata", KArith,
-   "key_t.len() - 1");
-  ("analysis/event_consumer", "metadata", KCall,
-   "self.content.metadata.map.insert(serde_yaml::Value::String(key_t.into_owned()), serde_yaml::V...");
-  ("analysis/event_consumer", "metadata", KCall,
-   "self.content.metadata.map.insert(yaml_key, yaml_value)");
-  ("analysis/event_consumer", "metadata", KUnwrap,
-   "self.content.metadata.map.get(key_t.as_ref()).unwrap()");
-  ("analysis/event_consumer", "metadata", KCall,
-   "self.locations.metadata.insert(sp_key, (key.clone(), value.clone()))");
-  ("analysis/event_consumer", "time_override_check", KMacro,
-   "assert!(!keys.is_empty())");
-  ("analysis/event_consumer", "time_override_check", KIndex,
-   "locs(&[new])[0]");
-  ("analysis/event_consumer", "time_override_check", KMacro,
-   "panic!(<str>)");
-  ("analysis/event_consumer", "time_override_check", KCall,
-   "self.locations.metadata.remove(k)");
-  ("analysis/event_consumer", "time_override_check", KUnwrap,
-   "overriden.next().unwrap()");
-  ("analysis/event_consumer", "in_step", KMacro,
-   "panic!(<str>)");
-  ("analysis/event_consumer", "in_text", KMacro,
-   "assert_eq!(self.define_mode, DefineMode::Text)");
-  ("analysis/event_consumer", "in_text", KMacro,
-   "unreachable!()");
-  ("analysis/event_consumer", "in_text", KIndex,
-   "self.input[span.range()]");
-  ("analysis/event_consumer", "in_text", KIndex,
-   "src[pos..end]");
-  ("analysis/event_consumer", "in_text", KMacro,
-   "panic!(<str>)");
-  ("analysis/event_consumer", "ingredient", KMacro,
-   "assert!(new_igr.modifiers().contains(Modifiers::REF))");
-  ("analysis/event_consumer", "ingredient", KMacro,
-   "assert!(ingredient.intermediate_data.is_none())");
-  ("analysis/event_consumer", "ingredient", KIndex,
-   "self.content.ingredients[references_to]");
-  ("analysis/event_consumer", "ingredient", KIndex,
-   "self.locations.ingredients[references_to]");
-  ("analysis/event_consumer", "ingredient", KMacro,
-   "assert!(definition.relation.is_definition())");
-  ("analysis/event_consumer", "ingredient", KIndex,
-   "self.content.ingredients[index]");
-  ("analysis/event_consumer", "ingredient", KIndex,
-   "self.locations.ingredients[index]");
-  ("analysis/event_consumer", "ingredient", KUnwrap,
-   "self.locations.ingredients[index].quantity.as_ref().unwrap()");
-  ("analysis/event_consumer", "ingredient", KUnwrap,
-   "located_ingredient.quantity.as_ref().unwrap()");
-  ("analysis/event_consumer", "ingredient", KExpect,
-   "definition.relation.is_defined_in_step().expect()");
-  ("analysis/event_consumer", "ingredient", KUnwrap,
-   "ingredient.quantity.unwrap()");
-  ("analysis/event_consumer", "ingredient", KUnwrap,
-   "located_ingredient.quantity.as_ref().unwrap()");
-  ("analysis/event_consumer", "ingredient", KUnwrap,
-   "definition_location.quantity.as_ref().unwrap()");
-  ("analysis/event_consumer", "ingredient", KArith,
-   "self.content.ingredients.len() - 1");
-  ("analysis/event_consumer", "resolve_intermediate_ref", KMacro,
-   "assert!(!inter_data.val.is_negative())");
-  ("analysis/event_consumer", "resolve_intermediate_ref", KArith,
-   "val - 1");
-  ("analysis/event_consumer", "resolve_intermediate_ref", KUnwrap,
-   "index.unwrap()");
-  ("analysis/event_consumer", "resolve_intermediate_ref", KArith,
-   "val - 1");
-  ("analysis/event_consumer", "resolve_intermediate_ref", KUnwrap,
-   "index.unwrap()");
-  ("analysis/event_consumer", "resolve_intermediate_ref", KArith,
-   "val - 1");
-  ("analysis/event_consumer", "cookware", KIndex,
-   "self.content.cookware[references_to]");
-  ("analysis/event_consumer", "cookware", KIndex,
-   "self.locations.cookware[references_to]");
-  ("analysis/event_consumer", "cookware", KMacro,
-   "assert!(definition.relation.is_definition())");
-  ("analysis/event_consumer", "cookware", KExpect,
-   "definition.relation.is_defined_in_step().expect()");
-  ("analysis/event_consumer", "cookware", KUnwrap,
-   "located_cookware.quantity.as_ref().unwrap()");
-  ("analysis/event_consumer", "cookware", KUnwrap,
-   "located_cookware.quantity.as_ref().unwrap()");
-  ("analysis/event_consumer", "cookware", KUnwrap,
-   "definition_location.quantity.as_ref().unwrap()");
-  ("analysis/event_consumer", "cookware", KArith,
-   "self.content.cookware.len() - 1");
-  ("analysis/event_consumer", "timer", KUnwrap,
-   "located_timer.quantity.as_ref().unwrap()");
-  ("analysis/event_consumer", "timer", KUnwrap,
-   "located_quantity.unit.as_ref().unwrap()");
-  ("analysis/event_consumer", "timer", KArith,
-   "self.content.timers.len() - 1");
-  ("analysis/event_consumer", "resolve_reference", KIndex,
-   "all[references_to]");
-  ("analysis/event_consumer", "resolve_reference", KMacro,
-   "assert!(!referenced.modifiers().contains(Modifiers::REF))");
-  ("analysis/event_consumer", "set_referenced_from", KIndex,
-   "all[references_to]");
-  ("analysis/event_consumer", "set_referenced_from", KMacro,
-   "panic!(<str>)");
-  ("analysis/event_consumer", "set_referenced_from", KIndex,
-   "all[references_to]");
-  ("analysis/event_consumer", "set_referenced_from", KMacro,
-   "panic!(<str>)");
-  ("analysis/event_consumer", "eat_word", KIndex,
-   "text[*i..]");
-  ("analysis/event_consumer", "eat_word", KIndex,
-   "s[..offset]");
-  ("analysis/event_consumer", "eat_word", KArith,
-   "i += offset");
-  ("analysis/event_consumer", "eat_whitespace", KIndex,
-   "text[*i..]");
-  ("analysis/event_consumer", "eat_whitespace", KIndex,
-   "text[*i..*i+offset]");
-  ("analysis/event_consumer", "eat_whitespace", KArith,
-   "i += offset");
-  ("analysis/event_consumer", "find_inline_quantity", KIndex,
-   "text[i..]");
-  ("analysis/event_consumer", "find_inline_quantity", KArith,
-   "i += offset");
-  ("analysis/event_consumer", "find_inline_quantity", KIndex,
-   "text.as_bytes()[i-1]");
-  ("analysis/event_consumer", "find_inline_quantity", KArith,
-   "i - 1");
-  ("analysis/event_consumer", "find_inline_quantity", KIndex,
-   "text[..i-1]");
-  ("analysis/event_consumer", "find_inline_quantity", KArith,
-   "i - 1");
-  ("analysis/event_consumer", "find_inline_quantity", KIndex,
-   "text[..i]");
-  ("analysis/event_consumer", "find_inline_quantity", KCall,
-   "w1.split_at(mid)");
-  ("analysis/event_consumer", "find_inline_quantity", KMacro,
-   "debug_assert!(prev<i)");
-  ("analysis/event_consumer", "find_inline_quantity", KIndex,
-   "text[i..]");
-  ("analysis/event_consumer", "yaml_find_key_position", KArith,
-   "offset += line.len()");
-  ("analysis/event_consumer", "yaml_find_key_position", KIndex,
-   "k[start..]");
-  ("analysis/event_consumer", "parse_reference", KUnwrap,
-   "components.pop().unwrap()");
-  ("text", "span", KUnwrap,
-   "fragments.first().unwrap()");
-  ("text", "span", KUnwrap,
-   "fragments.last().unwrap()");
-  ("text", "append_fragment", KMacro,
-   "assert!(self.span().end()<=fragment.offset)");
-  ("text", "text", KArith,
-   "s += text");
-  ("text", "fmt", KIndex,
-   "fragments[0]");
-  ("span", "len", KArith,
-   "self.end - self.start");
-  ("error", "push", KMacro,
-   "debug_assert!(self.severity.is_none()||self.severity.is_some_and(|s|err.severity==s))");
-  ("error", "error", KMacro,
-   "debug_assert_eq!(w.severity, Severity::Error)");
-  ("error", "warn", KMacro,
-   "debug_assert_eq!(w.severity, Severity::Warning)");
-  ("error", "set_severity", KMacro,
-   "debug_assert!(severity.is_none()||severity.is_some_and(|s|self.buf.iter().all(|e|e.severity==...");
-  ("error", "into_result", KUnwrap,
-   "self.output.unwrap()");
-  ("error", "unwrap_output", KUnwrap,
-   "self.output.unwrap()");
-  ("error", "next", KIndex,
-   "Self::COLORS[self.0]");
-  ("error", "next", KArith,
-   "Self::COLORS.len() - 1");
-  ("error", "next", KArith,
-   "self.0 += 1");
-  ("error", "write_report", KArith,
-   "core::cmp::max(w, 1) - sub")
-].
+Theorem C03_panic_inventory : PanicSites.panic_keys = [
+  ("lexer/mod", "block_comment", "debug_assert!", 1);
+  ("lexer/mod", "line_comment", "debug_assert!", 1);
+  ("lexer/mod", "number", "debug_assert!", 1);
+  ("lexer/mod", "whitespace", "debug_assert!", 1);
+  ("lexer/mod", "word", "debug_assert!", 1);
+  ("parser/block_parser", "base_offset", "unwrap", 1);
+  ("parser/block_parser", "bump", "assert_eq!", 1);
+  ("parser/block_parser", "bump_any", "expect", 1);
+  ("parser/block_parser", "error", "debug_assert!", 1);
+  ("parser/block_parser", "finish", "assert_eq!", 1);
+  ("parser/block_parser", "macro_rules!debug_assert_adjacent", "call windows", 1);
+  ("parser/block_parser", "macro_rules!debug_assert_adjacent", "debug_assert!", 1);
+  ("parser/block_parser", "new", "assert!", 1);
+  ("parser/block_parser", "new", "debug_assert!", 1);
+  ("parser/block_parser", "new", "debug_assert_adjacent!", 1);
+  ("parser/block_parser", "new", "unwrap", 2);
+  ("parser/block_parser", "parsed", "call split_at", 1);
+  ("parser/block_parser", "rest", "call split_at", 1);
+  ("parser/block_parser", "slice_str", "debug_assert_adjacent!", 1);
+  ("parser/block_parser", "slice_str", "unwrap", 2);
+  ("parser/block_parser", "text", "assert_eq!", 1);
+  ("parser/block_parser", "text", "debug_assert!", 1);
+  ("parser/block_parser", "text", "debug_assert_adjacent!", 1);
+  ("parser/block_parser", "warn", "debug_assert!", 1);
+  ("parser/mod", "parse_block", "unreachable!", 1);
+  ("parser/mod", "parse_multiline_block", "debug_assert!", 1);
+  ("parser/mod", "tokens_span", "debug_assert!", 1);
+  ("parser/mod", "tokens_span", "unwrap", 2);
+  ("parser/quantity", "int", "assert_eq!", 1);
+  ("parser/quantity", "macro_rules!unwrap_numeric", "unreachable!", 1);
+  ("parser/quantity", "mixed_num", "unreachable!", 1);
+  ("parser/quantity", "parse_advanced_quantity", "unwrap", 5);
+  ("parser/quantity", "parse_quantity", "assert!", 1);
+  ("parser/quantity", "parse_regular_quantity", "unwrap", 1);
+  ("parser/quantity", "range_value", "call split_at", 1);
+  ("parser/quantity", "range_value", "unwrap", 1);
+  ("parser/quantity", "trim_tokens", "unwrap", 1);
+  ("parser/step", "check_alias", "assert_ne!", 2);
+  ("parser/step", "check_alias", "unwrap", 1);
+  ("parser/step", "check_intermediate_data", "assert_ne!", 1);
+  ("parser/step", "check_modifiers", "assert_ne!", 2);
+  ("parser/step", "check_note", "assert!", 1);
+  ("parser/step", "check_note", "assert_ne!", 2);
+  ("parser/step", "cookware", "expect", 1);
+  ("parser/step", "parse_alias", "call split_at", 1);
+  ("parser/step", "parse_alias", "unwrap", 1);
+  ("parser/step", "parse_intermediate_ref_data", "expect", 1);
+  ("parser/step", "parse_modifiers", "panic!", 1);
+  ("analysis/event_consumer", "cookware", "assert!", 1);
+  ("analysis/event_consumer", "cookware", "expect", 1);
+  ("analysis/event_consumer", "cookware", "unwrap", 3);
+  ("analysis/event_consumer", "find_inline_quantity", "call split_at", 1);
+  ("analysis/event_consumer", "find_inline_quantity", "debug_assert!", 1);
+  ("analysis/event_consumer", "in_step", "panic!", 1);
+  ("analysis/event_consumer", "in_text", "assert_eq!", 1);
+  ("analysis/event_consumer", "in_text", "panic!", 1);
+  ("analysis/event_consumer", "in_text", "unreachable!", 1);
+  ("analysis/event_consumer", "ingredient", "assert!", 3);
+  ("analysis/event_consumer", "ingredient", "expect", 1);
+  ("analysis/event_consumer", "ingredient", "unwrap", 5);
+  ("analysis/event_consumer", "metadata", "call insert", 3);
+  ("analysis/event_consumer", "metadata", "unwrap", 1);
+  ("analysis/event_consumer", "parse_events", "assert!", 1);
+  ("analysis/event_consumer", "parse_events", "assert_eq!", 1);
+  ("analysis/event_consumer", "parse_events", "panic!", 2);
+  ("analysis/event_consumer", "parse_reference", "unwrap", 1);
+  ("analysis/event_consumer", "process_frontmatter", "unwrap", 1);
+  ("analysis/event_consumer", "resolve_intermediate_ref", "assert!", 1);
+  ("analysis/event_consumer", "resolve_intermediate_ref", "unwrap", 2);
+  ("analysis/event_consumer", "resolve_reference", "assert!", 1);
+  ("analysis/event_consumer", "set_referenced_from", "panic!", 2);
+  ("analysis/event_consumer", "time_override_check", "assert!", 1);
+  ("analysis/event_consumer", "time_override_check", "call remove", 1);
+  ("analysis/event_consumer", "time_override_check", "panic!", 1);
+  ("analysis/event_consumer", "time_override_check", "unwrap", 1);
+  ("analysis/event_consumer", "timer", "unwrap", 2);
+  ("text", "append_fragment", "assert!", 1);
+  ("text", "span", "unwrap", 2);
+  ("error", "error", "debug_assert_eq!", 1);
+  ("error", "into_result", "unwrap", 1);
+  ("error", "push", "debug_assert!", 1);
+  ("error", "set_severity", "debug_assert!", 1);
+  ("error", "unwrap_output", "unwrap", 1);
+  ("error", "warn", "debug_assert_eq!", 1)
+]%nat.
 Proof. reflexivity. Qed.
 Print Assumptions C03_panic_inventory.
 Local Close Scope string_scope.
 
-(* every entry of the inventory has a row in Model/PanicMap.v saying how the models treat it: the model
-   site that stands for it, or the (documented, not proved) reason why the models have no outcome for
-   it, or that its function is outside the models and left to the run-time monitor *)
-Theorem C03_panic_table_covers : map fst PanicMap.panic_table = PanicSites.sites.
-Proof. reflexivity. Qed.
+(* every pinned group has a row in Model/PanicMap.v with one treatment per site: the model site that stands
+   for it, or the (documented, not proved) reason why the models have no outcome for it, or that its
+   function is outside the models and left to the run-time monitor *)
+Theorem C03_panic_table_covers :
+  map fst PanicMap.group_table = PanicSites.panic_keys /\ PanicMap.groups_full = true.
+Proof. split; [reflexivity | vm_compute; reflexivity]. Qed.
 Print Assumptions C03_panic_table_covers.
 
-(* the rows that name a model site name one that exists, with its value (the list of model sites is read
+(* the treatments that name a model site name one that exists, with its value (the list of model sites is read
    from Model/PText.v, Model/Parser.v, Model/Analysis.v on every run and refers to the constants) ... *)
 Theorem C03_table_sites_exist : PanicMap.table_sites_exist = true.
 Proof. vm_compute. reflexivity. Qed.
 Print Assumptions C03_table_sites_exist.
 
-(* ... and conversely every panic site of the three models is the image of at least one entry of the
-   inventory, except the three listed in [PanicMap.model_only] (the fuel of the model's loops, the
-   find_iq fuel, the guard of the pre-repair note label) *)
+(* ... and conversely every panic site of the models is the image of a pinned site, except the five that
+   stand for an index / arithmetic expression ([PanicMap.unpinned_sites]) and the three of
+   [PanicMap.model_only] (the fuel of the model's loops, the find_iq fuel, the guard of the pre-repair note
+   label) *)
 Theorem C03_model_sites_accounted : PanicMap.model_sites_accounted = true.
 Proof. vm_compute. reflexivity. Qed.
 Print Assumptions C03_model_sites_accounted.
 
-(* the split of the table, measured *)
+(* the split of the table, measured: groups, pinned sites = model sites + unreachable + unmodelled, sites of
+   the models *)
 Example C03_panic_table_counts :
-  (List.length PanicSites.sites, PanicMap.count_sites, PanicMap.count_unreachable, PanicMap.count_unmodelled,
-   List.length PanicSites.model_sites) = (191, 39, 107, 45, 31)%nat.
+  (List.length PanicSites.panic_keys, List.length PanicMap.all_treatments, PanicMap.count_sites,
+   PanicMap.count_unreachable, PanicMap.count_unmodelled, List.length PanicSites.model_sites)
+  = (84, 109, 26, 61, 22, 31)%nat.
 Proof. vm_compute. reflexivity. Qed.
